@@ -66,4 +66,149 @@ def wtPairs (R : Registry) : Format → Format → List Value → Bool
   | _, _, _ => false
 end
 
+/-! ### the oracle of engine `codec`
+
+What C10 demands of one observation of the real code, stated with `wt`, `enc` and `dec` only:
+
+  `val`     the Rust value is a value of its traced schema; Rust writes exactly `enc v`; reading those bytes back
+            gives `v` again, nothing left over;
+  `strict`  the bytes (emitted by the core, or built from the schema as a generated shell would) decode under the
+            schema with nothing left over; Rust accepts them as that same value; Rust re-writes the same bytes;
+  `any`     if the schema accepts a prefix of the bytes as `v`, so does Rust, and Rust writes that prefix for `v`
+            (bytes the schema rejects are C12's business: anything goes here). -/
+
+def ok (c : Case) (o : Obs) : Bool :=
+  match c.kind with
+  | .val =>
+    match c.v with
+    | none => (match o with | .notInSchema => true | _ => false)
+    | some v =>
+      if wt c.R c.f v then
+        match o with
+        | .wrote bs (some v') => decide (bs = enc v) && v'.beq v
+        | _ => false
+      else (match o with | .notInSchema => true | _ => false)
+  | .strict =>
+    match dec (fuelFor c.R c.bytes) c.R c.f c.bytes with
+    | some (v, []) =>
+      (match o with
+       | .accepted v' re trail => v'.beq v && decide (re = c.bytes) && !trail
+       | _ => false)
+    | _ => false
+  | .any =>
+    match dec (fuelFor c.R c.bytes) c.R c.f c.bytes with
+    | some (v, rest) =>
+      (match o with
+       | .accepted v' re trail => v'.beq v && decide (re ++ rest = c.bytes) && (trail == !rest.isEmpty)
+       | _ => false)
+    | none => true
+
+/-! #### keys: where written bytes stop being the schema encoding of the value
+
+`diff` walks the value and the bytes together. A variant number other than the schema's is reported as
+`<enum>-skip-index` (the derived `Serialize` and the traced schema can only disagree on a variant's number when
+`#[serde(skip)]` variants precede it, see `M.Bincode.deIndex`); anything else as `<container>-bytes-differ`,
+`<container>` being the innermost enclosing named container, lower-cased. -/
+
+def lower (s : String) : String := s.map Char.toLower
+
+def leaf (ctx : String) (v : Value) (bs : Bytes) : Sum String Bytes :=
+  let e := enc v
+  if bs.take e.length = e then .inr (bs.drop e.length) else .inl (lower ctx ++ "-bytes-differ")
+
+mutual
+def diff (R : Registry) (ctx : String) : Format → Value → Bytes → Sum String Bytes
+  | .typeName n, .variant i (.tuple vs), bs =>
+    match decNat 4 bs with
+    | some (j, r) =>
+      if j = i then
+        match lookup n R with
+        | some (.enum variants) =>
+          match lookupVariant i variants with
+          | some vf => diffT R n vf.value.fields vs r
+          | none => .inl (lower n ++ "-bytes-differ")
+        | _ => .inl (lower n ++ "-bytes-differ")
+      else .inl (lower n ++ "-skip-index")
+    | none => .inl (lower n ++ "-bytes-differ")
+  | .typeName n, .tuple vs, bs =>
+    match lookup n R with
+    | some c =>
+      match structFields c with
+      | some fs => diffT R n fs vs bs
+      | none => .inl (lower n ++ "-bytes-differ")
+    | none => .inl (lower n ++ "-bytes-differ")
+  | .option f, .some v, bs =>
+    match bs with
+    | b :: r => if b = 1 then diff R ctx f v r else .inl (lower ctx ++ "-bytes-differ")
+    | [] => .inl (lower ctx ++ "-bytes-differ")
+  | .seq f, .seq vs, bs =>
+    match decNat 8 bs with
+    | some (n, r) => if n = vs.length then diffAll R ctx f vs r else .inl (lower ctx ++ "-bytes-differ")
+    | none => .inl (lower ctx ++ "-bytes-differ")
+  | .map k f, .seq vs, bs =>
+    match decNat 8 bs with
+    | some (n, r) => if n = vs.length then diffPairs R ctx k f vs r else .inl (lower ctx ++ "-bytes-differ")
+    | none => .inl (lower ctx ++ "-bytes-differ")
+  | .tuple fs, .tuple vs, bs => diffT R ctx fs vs bs
+  | .tupleArray f _, .tuple vs, bs => diffAll R ctx f vs bs
+  | _, v, bs => leaf ctx v bs
+def diffAll (R : Registry) (ctx : String) : Format → List Value → Bytes → Sum String Bytes
+  | _, [], bs => .inr bs
+  | f, v :: vs, bs =>
+    match diff R ctx f v bs with
+    | .inr r => diffAll R ctx f vs r
+    | .inl k => .inl k
+def diffT (R : Registry) (ctx : String) : List Format → List Value → Bytes → Sum String Bytes
+  | f :: fs, v :: vs, bs =>
+    match diff R ctx f v bs with
+    | .inr r => diffT R ctx fs vs r
+    | .inl k => .inl k
+  | _, _, bs => .inr bs
+def diffPairs (R : Registry) (ctx : String) : Format → Format → List Value → Bytes → Sum String Bytes
+  | k, f, .tuple [a, b] :: vs, bs =>
+    match diff R ctx k a bs with
+    | .inr r =>
+      match diff R ctx f b r with
+      | .inr r' => diffPairs R ctx k f vs r'
+      | .inl key => .inl key
+    | .inl key => .inl key
+  | _, _, _, bs => .inr bs
+end
+
+def diffKey (c : Case) (v : Value) (written : Bytes) : String :=
+  match diff c.R c.root c.f v written with
+  | .inl k => k
+  | .inr _ => lower c.root ++ "-bytes-differ"
+
+def rejectKey (c : Case) (o : Obs) : String :=
+  let root := lower c.root
+  match c.kind with
+  | .val =>
+    match c.v with
+    | none => root ++ "-value-not-in-schema"
+    | some v =>
+      if wt c.R c.f v then
+        match o with
+        | .wrote bs back =>
+          if bs ≠ enc v then diffKey c v bs
+          else match back with
+            | some _ => root ++ "-read-back-differs"
+            | none => root ++ "-own-bytes-rejected"
+        | .serError => root ++ "-serialize-failed"
+        | _ => root ++ "-unexpected-observation"
+      else root ++ "-value-not-in-schema"
+  | _ =>
+    match dec (fuelFor c.R c.bytes) c.R c.f c.bytes with
+    | some (v, rest) =>
+      if c.kind = .strict ∧ rest ≠ [] then root ++ "-bytes-not-schema-valid"
+      else
+        match o with
+        | .accepted v' re _ =>
+          if !(v'.beq v) then root ++ "-accepted-as-other-value"
+          else if re ++ rest ≠ c.bytes then diffKey c v re
+          else root ++ "-trailing-bytes-misreported"
+        | .rejected => root ++ "-valid-encoding-rejected"
+        | _ => root ++ "-unexpected-observation"
+    | none => root ++ "-bytes-not-schema-valid"
+
 end S.Codec
